@@ -789,7 +789,8 @@ int tickit_renderbuffer_textn(TickitRenderBuffer *rb, const char *text, size_t l
 
   DEBUG_LOGF(rb, "Bd", "Text (%d..%d,%d) +%d", rb->vc_col, rb->vc_col + cols, rb->vc_line, cols);
 
-  rb->vc_col += cols;
+  if(cols > 0)
+    rb->vc_col += cols;
   return cols;
 }
 
@@ -835,7 +836,8 @@ int tickit_renderbuffer_vtextf(TickitRenderBuffer *rb, const char *fmt, va_list 
 
   DEBUG_LOGF(rb, "Bd", "Text (%d..%d,%d) +%d", rb->vc_col, rb->vc_col + cols, rb->vc_line, cols);
 
-  rb->vc_col += cols;
+  if(cols > 0)
+    rb->vc_col += cols;
   return cols;
 }
 
